@@ -165,6 +165,49 @@ def dec_text(t):
     return "".join(chr(x) for x in dec_toks(t))
 
 
+GEN_TABLE = os.path.join(vlib.COQ, "theories", "gen", "CliTable.v")
+MY_TABLE = os.path.join(vlib.BUILD, "c19", "CliTable.expected.v")
+
+
+def my_table():
+    """The table for vlib.REPO, written to a private file (the shared gen/ file may be regenerated at any time by a
+    concurrently running check of another property, possibly for another VERIF_REPO)."""
+    os.makedirs(os.path.dirname(MY_TABLE), exist_ok=True)
+    rc, out = vlib.sh("python3 " + os.path.join(vlib.ROOT, "tools", "gen", "gen_cli_table.py"),
+                      env=dict(vlib.ENV, VERIF_CLI_TABLE_OUT=MY_TABLE), timeout=120)
+    if rc != 0:
+        raise RuntimeError("translator failed: " + out[-1500:])
+    return open(MY_TABLE).read()
+
+
+PRIVATE_FILES = ["lib/Str.v", "lib/Show.v", "lib/Ord.v", "model/Semver.v", "model/CliTypes.v", "gen/CliTable.v",
+                 "model/Cli.v", "model/CliWorlds.v", "spec/CliSpec.v"]
+
+
+def private_model():
+    """Compile a private copy of the model (with the table of OUR repository path) under build/c19/coq, so that the
+    evaluation cannot be disturbed by a concurrent regeneration of the shared gen/CliTable.v. Cached by content."""
+    pd = os.path.join(vlib.BUILD, "c19", "coq")
+    want_table = my_table()
+    texts = {}
+    for rel in PRIVATE_FILES:
+        texts[rel] = want_table if rel == "gen/CliTable.v" else open(os.path.join(vlib.COQ, "theories", rel)).read()
+    key = hashlib.sha256("\0".join(rel + "\0" + texts[rel] for rel in PRIVATE_FILES).encode()).hexdigest()
+    stamp = os.path.join(pd, "stamp")
+    if os.path.exists(stamp) and open(stamp).read() == key:
+        return pd
+    shutil.rmtree(pd, ignore_errors=True)
+    for rel in PRIVATE_FILES:
+        os.makedirs(os.path.dirname(os.path.join(pd, "theories", rel)), exist_ok=True)
+        open(os.path.join(pd, "theories", rel), "w").write(texts[rel])
+    for rel in PRIVATE_FILES:
+        rc, out = vlib.sh(f"timeout 600 coqc -Q theories WacV -w -all theories/{rel}", cwd=pd, timeout=630)
+        if rc != 0:
+            raise RuntimeError(f"private model build failed at {rel}: " + out[-3000:])
+    open(stamp, "w").write(key)
+    return pd
+
+
 def coq_eval(exprs):
     """Evaluate Coq terms of type str with vm_compute in one coqc call; returns the decoded strings."""
     d = os.path.join(vlib.BUILD, "c19")
@@ -173,8 +216,8 @@ def coq_eval(exprs):
     for e in exprs:
         src.append(f"Eval vm_compute in ({e}).")
     open(os.path.join(d, "cases.v"), "w").write("\n".join(src) + "\n")
-    with vlib.Lock("coq"):
-        rc, out = vlib.sh(f"timeout 900 coqc -Q {vlib.COQ}/theories WacV -w -all {d}/cases.v", cwd=d, timeout=930)
+    pd = private_model()
+    rc, out = vlib.sh(f"timeout 900 coqc -Q {pd}/theories WacV -w -all {d}/cases.v", cwd=d, timeout=930)
     if rc != 0:
         raise RuntimeError("coqc on cases.v failed: " + out[-3000:])
     vals = re.findall(r"=\s*(\[[^\]]*\])\s*:\s*(?:str|list N)", out, re.S)
@@ -465,6 +508,8 @@ def run(res, tier, seed, replay):
         phases[name] = round(time.time() - t0, 1)
         t0 = time.time()
     pr = vlib.proof_stage(res, PID)
+    pr = restate_proof_against_my_table(res, pr)
+    name_broken_statement(res)
     lap("proof_stage")
     rc, out = build_cli()
     if rc != 0:
@@ -602,9 +647,34 @@ def run(res, tier, seed, replay):
     digest_check(bag, known, only)
     lap("judging")
 
+    # which stage each composition stops at in process (distribution written to the evidence file), and whether any
+    # composition encodes without validation to bytes that the validator rejects (a validation-stage failure)
+    stage_hist, invalid_unvalidated = {}, []
+    for sc in scs:
+        lib = sc["lib"]
+        stop = "success"
+        for stg in ("read", "parse", "discover", "fs", "resolve"):
+            if lib.get(stg, {}).get("st", "ok") != "ok" or (stg == "fs" and lib.get("fs", {}).get("missing")):
+                stop = stg if stg != "fs" or lib["fs"]["st"] != "ok" else "missing-package"
+                break
+            if stg not in lib:
+                break
+        else:
+            encs = lib.get("encode", {})
+            if encs and all(e["st"] != "ok" for e in encs.values()):
+                stop = "encode"
+            elif encs and any(e["st"] != "ok" for e in encs.values()):
+                stop = "encode(some options)"
+            for key in ("10", "00"):
+                e = encs.get(key)
+                if e and e["st"] == "ok" and not e.get("valid", True):
+                    invalid_unvalidated.append(sc["name"])
+        stage_hist[stop] = stage_hist.get(stop, 0) + 1
     # ---------------- evidence + outcome
     res.coverage.update(dict(
         correspondence_cases=bag.cases, evaluations=bag.cases, case_kinds=bag.kinds, phase_seconds=phases,
+        compositions=len(scs), compositions_by_stopping_stage=stage_hist,
+        compositions_failing_only_at_validation=sorted(set(invalid_unvalidated)),
         disagreements=len(bag.disagree), spec_failures_on_impl=len(bag.spec_fail),
         distinct_nontrivial=len(bag.nontrivial),
         rule="every case is one execution of the built wac binary. compose: %d compositions (corpus/C19 + seeded generator) x "
@@ -638,13 +708,73 @@ def run(res, tier, seed, replay):
     for sig, txt in sorted(bag.known_hits.items()):
         res.known.append(f"id={known[sig].get('id')} signature={sig} {txt}")
     for f in bag.spec_fail[:5]:
-        res.violation(dict(kind="property-fails-on-implementation", **f))
+        res.violation(dict(kind="property-fails-on-implementation", proof_status=(res.proof_broken or {}).get("what", "all theorems check"), **f))
     if not bag.spec_fail:
         if bag.disagree:
             res.violation(dict(kind="correspondence-broken", n=len(bag.disagree),
                                correspondence="model/Cli.v + gen/CliTable.v vs the wac binary", **bag.disagree[0]), no_input=True)
         if res.proof_broken:
             res.violation(res.proof_broken, no_input=True)
+
+
+def restate_proof_against_my_table(res, pr):
+    """gen/CliTable.v is shared by all checks. When this check runs for a scratch worktree (VERIF_REPO) while checks of
+    other properties run for /repo, they regenerate the table for /repo under our feet. Re-run the proof build until
+    the table it was compiled against is the one of OUR repository path."""
+    want_table = my_table()
+    if vlib.REPO == "/repo" and open(GEN_TABLE).read() == want_table:
+        return pr
+    for attempt in range(4):
+        if open(GEN_TABLE).read() != want_table:
+            open(GEN_TABLE, "w").write(want_table)
+        pr = vlib.coq_props(PID)
+        if open(GEN_TABLE).read() == want_table:
+            break
+    else:
+        res.violation(dict(kind="machinery-error", what="gen/CliTable.v keeps being regenerated for another repository path"), no_input=True)
+    res.coverage["discharged"] = len([t for t in pr["theorems"] if t in pr["closed"]]) if pr["ok"] else 0
+    res.proof_table_repo = vlib.REPO
+    if not pr["ok"]:
+        res.proof_broken = dict(kind="proof-broken", what=f"Coq build failed at {pr['failing']}", log=pr["log"][-4000:])
+    elif pr["open"]:
+        res.proof_broken = dict(kind="assumptions", what="theorem depends on axioms / no Print Assumptions", detail=pr["open"])
+    else:
+        res.proof_broken = None
+    return pr
+
+
+def name_broken_statement(res):
+    """Turn 'Coq build failed at file:line' into the name of the lemma and of the property theorems resting on it."""
+    pb = getattr(res, "proof_broken", None)
+    if not pb or pb.get("kind") != "proof-broken":
+        return
+    m = re.search(r"at (theories/\S+\.v):(\d+)", pb.get("what", ""))
+    if not m:
+        return
+    try:
+        lines = open(os.path.join(vlib.COQ, m.group(1))).read().split("\n")[:int(m.group(2))]
+    except OSError:
+        return
+    name = None
+    for ln in lines:
+        mm = re.match(r"\s*(?:Lemma|Theorem|Example|Definition|Fixpoint)\s+([A-Za-z0-9_']+)", ln)
+        if mm:
+            name = mm.group(1)
+    if not name:
+        return
+    users = []
+    try:
+        src = open(os.path.join(vlib.COQ, "theories", "props", PID + ".v")).read()
+        for blk in re.findall(r"Theorem\s+([A-Za-z0-9_']+).*?Qed\.", src, re.S):
+            pass
+        for tm in re.finditer(r"Theorem\s+([A-Za-z0-9_']+)(.*?)Qed\.", src, re.S):
+            if re.search(r"\b" + re.escape(name) + r"\b", tm.group(2)) or tm.group(1) == name:
+                users.append(tm.group(1))
+    except OSError:
+        pass
+    pb["statement"] = name
+    pb["property_theorems_resting_on_it"] = users
+    pb["what"] = pb["what"] + f" (statement `{name}`" + (f", used by {', '.join(users)}" if users else "") + ")"
 
 
 def fill_min(res):
@@ -1186,7 +1316,7 @@ def judge_targets(runs, vals, bag, known):
 def usage_matrix(only, want):
     U = []
     # README lines as generated by the translator (evaluated inside Coq), with the file names as they are
-    gen = open(os.path.join(vlib.COQ, "theories", "gen", "CliTable.v")).read()
+    gen = my_table()
     m = re.search(r"Definition readme_examples.*?:= \[\n(.*?)\n\]\.", gen, re.S)
     for line in m.group(1).split("\n"):
         toks = re.findall(r"\(\* (.*?) \*\)", line)
